@@ -73,6 +73,69 @@ def compute(v):
     return ("computed", v)
 
 
+# --- classes for the deep scenarios: targets and sources nested inside other components -----------------------------------------------
+import dataclasses as _dc  # noqa: E402
+
+
+class DLeaf:
+    def __init__(self, x: Any = "unset"):
+        LOG.append(("DLeaf", {"x": x}))
+        self.x = x
+
+
+class DMid:
+    def __init__(self, c: DLeaf, p: Any = "unset"):
+        LOG.append(("DMid", {"c": c, "p": p}))
+        self.c, self.p, self.r = c, p, "r-of-mid"
+
+
+class DSrc:
+    def __init__(self, p: Any = "unset"):
+        LOG.append(("DSrc", {"p": p}))
+        self.p, self.tag = p, "tag-of-src"
+
+
+class DSink:
+    def __init__(self, y: Any = "unset", t: int = 0):
+        LOG.append(("DSink", {"y": y, "t": t}))
+        self.y, self.t = y, t
+
+
+class DEnc:
+    def __init__(self):
+        self.out = 16
+
+
+class DModel:
+    def __init__(self, k: int = 1):
+        LOG.append(("DModel", {"k": k}))
+        self.enc, self.out, self.w1 = DEnc(), "MODEL.out", 100
+
+
+class DNoAttr:
+    def __init__(self, k: int = 1):
+        self.k = k
+
+
+@_dc.dataclass
+class DData:
+    n: int = 3
+
+
+class DTakesData:
+    def __init__(self, d: DData, q: int = 0):
+        LOG.append(("DTakesData", {"d": d}))
+        self.d = d
+
+
+SHIFT = []
+
+
+def minus(a, b):
+    SHIFT.append((a, b))
+    return a - b
+
+
 def kahn_cyclic(nodes, edges):
     indeg = {i: 0 for i in nodes}
     adj = {i: [] for i in nodes}
@@ -277,6 +340,143 @@ def run_e2e(ctx, case):
                 return
 
 
+def deep_family(ctx, only=None):
+    """link sources and targets *inside* other components (a small fixed family, enumerated over declaration and link orders):
+    S0 a --> b.init_args.c.init_args.x with b --> d.y (the enclosing component of the deep target is itself a source), S1 a cycle that
+    closes through such nesting, S2 the parser after a rejected cyclic link, S3 a dataclass group fed whole into a dataclass-typed
+    init arg, S4 several sources of which one attribute does not exist, S5 a source that is an attribute of an attribute."""
+    import warnings
+
+    from jsonargparse import ArgumentParser
+
+    warnings.simplefilter("ignore")
+    M = __name__ + "."
+    mid_spec = json.dumps({"class_path": M + "DMid", "init_args": {"c": {"class_path": M + "DLeaf"}}})
+
+    def s0(case):
+        p = ArgumentParser(exit_on_error=False)
+        for nm in case["decl"]:
+            if nm == "a":
+                p.add_class_arguments(DSrc, "a")
+            elif nm == "b":
+                p.add_argument("--b", type=DMid)
+            else:
+                p.add_class_arguments(DSink, "d")
+        links = [("a", "b.init_args.c.init_args.x"), ("b", "d.y")]
+        for src, tgt in (links if case["links"] == 0 else links[::-1]):
+            p.link_arguments(src, tgt, apply_on="instantiate")
+        del LOG[:]
+        init = p.instantiate_classes(p.parse_args(["--b=" + mid_spec]))
+        names = [x[0] for x in LOG]
+        if sorted(names) != ["DLeaf", "DMid", "DSink", "DSrc"]:
+            return "class-not-constructed-exactly-once", {"constructed": names}
+        pos = {n: i for i, n in enumerate(names)}
+        if not (pos["DSrc"] < pos["DLeaf"] < pos["DMid"] < pos["DSink"]):
+            return "source-constructed-after-dependant", {"constructed": names}
+        if init.b.c.x is not init.a or init.d.y is not init.b:
+            return "linked-parameter-has-wrong-value", {"c.x": short(init.b.c.x, 80), "d.y": short(init.d.y, 80)}
+
+    def s1(case):
+        p = ArgumentParser(exit_on_error=False)
+        p.add_argument("--root", type=DMid)
+        p.add_class_arguments(DSink, "z")
+        links = [("root.r", "z.y"), ("z", "root.init_args.c.init_args.x")]
+        order = links if case["links"] == 0 else links[::-1]
+        p.link_arguments(*order[0], apply_on="instantiate")
+        try:
+            p.link_arguments(*order[1], apply_on="instantiate")
+        except ValueError:
+            return None
+        return "cyclic-link-set-accepted", {"links": order}
+
+    def s2(case):
+        p = ArgumentParser(exit_on_error=False)
+        for nm in case["decl"]:
+            p.add_class_arguments(DSrc, nm)
+        p.link_arguments("a.tag", "b.p", apply_on="instantiate")
+        try:
+            p.link_arguments("b.tag", "a.p", apply_on="instantiate")
+            return "cyclic-link-set-accepted", {}
+        except ValueError:
+            pass
+        try:
+            p.link_arguments("b.tag", "d.p", apply_on="instantiate")
+            init = p.instantiate_classes(p.parse_args([]))
+        except Exception as ex:  # noqa
+            return "parser-unusable-after-a-rejected-cyclic-link", {"error": fmt_exc(ex)}
+        if init.d.p != "tag-of-src" or init.b.p != "tag-of-src" or init.a.p != "unset":
+            return "linked-parameter-has-wrong-value", {"a.p": init.a.p, "b.p": init.b.p, "d.p": init.d.p}
+
+    def s3(case):
+        p = ArgumentParser(exit_on_error=False)
+        for nm in case["decl"]:
+            if nm == "a":
+                p.add_class_arguments(DData, "a")
+            elif nm == "b":
+                p.add_argument("--b", type=DTakesData)
+            else:
+                p.add_class_arguments(DSrc, "d")
+        p.link_arguments("a", "b.init_args.d", apply_on="instantiate")
+        del LOG[:]
+        init = p.instantiate_classes(p.parse_args(["--b=" + M + "DTakesData", "--a.n=7"]))
+        if not isinstance(init.a, DData) or init.b.d is not init.a or init.a.n != 7:
+            return "linked-parameter-has-wrong-value", {"b.d": short(init.b.d, 80), "a": short(init.a, 80)}
+        if [x[0] for x in LOG].count("DTakesData") != 1:
+            return "class-not-constructed-exactly-once", {"constructed": [x[0] for x in LOG]}
+
+    def s4(case):
+        p = ArgumentParser(exit_on_error=False)
+        for nm in case["decl"]:
+            if nm == "a":
+                p.add_argument("--a", type=Any if False else DNoAttr)
+            elif nm == "b":
+                p.add_argument("--b", type=DModel)
+            else:
+                p.add_class_arguments(DSink, "d")
+        srcs = ("a.w2", "b.w1") if case["links"] == 0 else ("b.w1", "a.w2")  # DNoAttr objects have no attribute w2
+        p.link_arguments(srcs, "d.t", compute_fn=minus, apply_on="instantiate")
+        del SHIFT[:]
+        init = p.instantiate_classes(p.parse_args(["--a=" + M + "DNoAttr", "--b=" + M + "DModel"]))
+        if SHIFT or init.d.t != 0:
+            return "compute_fn-called-although-a-source-attribute-is-missing", {"calls": list(SHIFT), "d.t": init.d.t}
+
+    def s5(case):
+        p = ArgumentParser(exit_on_error=False)
+        for nm in case["decl"]:
+            if nm == "a":
+                p.add_argument("--a", type=DModel)
+            elif nm == "b":
+                p.add_class_arguments(DSrc, "b")
+            else:
+                p.add_class_arguments(DSink, "d")
+        p.link_arguments("a.enc.out", "d.y", apply_on="instantiate")
+        p.link_arguments("a.out", "b.p", apply_on="instantiate")
+        init = p.instantiate_classes(p.parse_args(["--a=" + M + "DModel"]))
+        if init.d.y != 16 or init.b.p != "MODEL.out":
+            return "linked-parameter-has-wrong-value", {"d.y": short(init.d.y, 40), "b.p": short(init.b.p, 40)}
+
+    scen = {"S0": s0, "S1": s1, "S2": s2, "S3": s3, "S4": s4, "S5": s5}
+    for name, fn in scen.items():
+        for decl in itertools.permutations(["a", "b", "d"]):
+            for links in (0, 1):
+                case = {"kind": "deep", "scenario": name, "decl": list(decl), "links": links}
+                if only is not None and case != only:
+                    continue
+                if only is None:
+                    ctx.begin(case)
+                ctx.cls("deep:" + name)
+                try:
+                    r = fn(case)
+                except Exception as ex:  # noqa
+                    r = ("raises:" + type(ex).__name__, {"error": fmt_exc(ex)})
+                if r:
+                    ctx.finding(f"C16/deep/{name}/{r[0]}", dict(r[1], decl=list(decl), links=links))
+                if only is None:
+                    ctx.mark_nontrivial_enumerated()
+                    if not ctx.end(raise_on_fail=False):
+                        return
+
+
 def e2e_shard(ctx, part, of, n_cyclic):
     import random  # noqa: the seeded choice of link insertion order / source kinds; a pure function of VERIF_SEED and the case index
 
@@ -335,6 +535,10 @@ def e2e_shard(ctx, part, of, n_cyclic):
 
 
 def run_case(ctx, case):
+    if case["kind"] == "deep":
+        deep_family(ctx, only=case)
+        ctx.mark_nontrivial()
+        return
     if case["kind"] == "e2e":
         run_e2e(ctx, case)
         ctx.mark_nontrivial()
@@ -362,15 +566,19 @@ def plan(tier):
     if tier == "quick":
         return ([{"kind": "graph", "n": 2, "loops": True, "part": 0, "of": 1, "orders": 3}, {"kind": "graph", "n": 3, "loops": True, "part": 0, "of": 1, "orders": 3}]
                 + [{"kind": "graph", "n": 4, "loops": True, "part": i, "of": 6, "orders": 3} for i in range(6)]
-                + [{"kind": "e2e", "part": i, "of": 16, "cyclic": 60} for i in range(16)])
+                + [{"kind": "deep"}] + [{"kind": "e2e", "part": i, "of": 16, "cyclic": 60} for i in range(16)])
     return ([{"kind": "graph", "n": 3, "loops": True, "part": 0, "of": 1, "orders": 3}]
             + [{"kind": "graph", "n": 4, "loops": True, "part": i, "of": 4, "orders": 3} for i in range(4)]
             + [{"kind": "graph", "n": 5, "loops": False, "part": i, "of": 32, "orders": 2} for i in range(32)]
-            + [{"kind": "e2e", "part": i, "of": 16, "cyclic": 800} for i in range(16)])
+            + [{"kind": "deep"}] + [{"kind": "e2e", "part": i, "of": 16, "cyclic": 800} for i in range(16)])
 
 
 def run_shard(spec, ctx):
-    if spec["kind"] == "graph":
+    if spec["kind"] == "deep":
+        deep_family(ctx)
+        if len(ctx.samples) < 1:
+            ctx.samples.append({"kind": "deep", "scenario": "S0", "decl": ["a", "b", "d"], "links": 0})
+    elif spec["kind"] == "graph":
         graph_shard(ctx, spec["n"], spec["loops"], spec["part"], spec["of"], spec["orders"])
         if len(ctx.samples) < 1:
             ctx.samples.append({"kind": "graph", "n": spec["n"], "edges": [[0, 1], [1, 2], [0, 2]]})
